@@ -5302,8 +5302,13 @@ class FlowIRConcrete(object):
 
         platform_environments = self.get_environments(platform)
 
+        # VV: an environment of the platform is layered over the same-named environment of the default platform
+        #     variable by variable (this is what get_environment() does too), it does not replace it
         environments = default_environments
-        environments.update(platform_environments)
+        for env_name in platform_environments:
+            layered = dict(environments.get(env_name) or {})
+            layered.update(platform_environments[env_name] or {})
+            environments[env_name] = layered
 
         global_variables = FlowIR.fill_in(
             global_variables, context=global_variables, flowir=self._flowir, ignore_errors=True,
